@@ -42,6 +42,8 @@ def agent_rows():
             v = "caught" if c.get("caught") else ("missed" if c.get("exit") == 0 else "exit %s" % c.get("exit"))
             if first is not None and not first.get("caught") and c.get("caught"):
                 v = "missed at first, caught after strengthening"
+                if (first.get("exit") or 0) < 0 or first.get("exit") == 2:
+                    v = "first run did not complete (harness defect on a broken tree, since fixed), then caught"
             verdicts.append("%s: %s (%s violations, %ss)" % (k.split(":")[0], v, c.get("violations"), int(c.get("wall_s", 0))))
         rows.append((name, meta.get("property", "?"), short(meta.get("summary", ""), 230), short(meta.get("needs", ""), 200),
                      "yes" if conf.get("confirmed") else "NO", "; ".join(verdicts) or "not run"))
